@@ -16,6 +16,7 @@ VERIF = mir.VERIF
 # property -> list of rule modules (each has run(ctx)); shared modules implement dependencies between properties
 PROPERTIES = {
     'C01': ['c01'],
+    'C02': ['c02'],
     'C03': ['c03', 'c11'],
     'C06': ['c06'],
     'C08': ['c08'],
@@ -27,6 +28,7 @@ PROPERTIES = {
     'C16': ['c16'],
     'C17': ['c17'],
     'C18': ['c18'],
+    'C19': ['c19'],
     'C20': ['c20'],
 }
 
